@@ -104,6 +104,10 @@ func (k KnownFinding) matches(prop string, v *Violation) bool {
 }
 
 // nativeReplay runs the replay inputs of one package against the natively built harness.
+// replayTimeout: deadline of one native `go test` run (the batch of all replay inputs of a package;
+// single inputs re-run after a crash or hang get a shorter one).
+var replayTimeout = "4m"
+
 func nativeReplay(l *Loaded, short string, inputs map[string]*ReplayIn, race bool) (map[string]*ReplayOut, string, error) {
 	tmp, err := os.MkdirTemp("", "symgo-replay-")
 	if err != nil {
@@ -142,7 +146,7 @@ func nativeReplay(l *Loaded, short string, inputs map[string]*ReplayIn, race boo
 	ovb, _ := json.Marshal(map[string]interface{}{"Replace": ov})
 	ovFile := filepath.Join(tmp, "overlay.json")
 	os.WriteFile(ovFile, ovb, 0644)
-	args := []string{"test", "-tags", "verif", "-overlay", ovFile, "-run", "^TestVerifReplay$", "-count=1", "-vet=off", "-timeout", "20m"}
+	args := []string{"test", "-tags", "verif", "-overlay", ovFile, "-run", "^TestVerifReplay$", "-count=1", "-vet=off", "-timeout", replayTimeout}
 	if race {
 		args = append(args, "-race")
 	}
@@ -318,10 +322,30 @@ func checkMain(args []string) int {
 					still += len(missing) - i
 					break
 				}
+				if len(crashed) >= 3 {
+					still += len(missing) - i // enough scenarios attributed; the rest stays without a native verdict
+					break
+				}
+				replayTimeout = "60s"
 				r1, log1, _ := nativeReplay(l, short, map[string]*ReplayIn{name: ins[name]}, prop == "C19")
+				replayTimeout = "4m"
 				if r1[name] != nil {
 					outs[name] = r1[name]
 					continue
+				}
+				if strings.Contains(log1, "test timed out") {
+					// once more, alone and with twice the time, before calling it a hang
+					replayTimeout = "120s"
+					r2, log2, _ := nativeReplay(l, short, map[string]*ReplayIn{name: ins[name]}, prop == "C19")
+					replayTimeout = "4m"
+					if r2[name] != nil {
+						outs[name] = r2[name]
+						continue
+					}
+					if strings.Contains(log2, "test timed out") {
+						crashed[name] = "hang: the native run of this scenario did not finish within 60 s, nor within 120 s when repeated"
+						continue
+					}
 				}
 				if strings.Contains(log1, "stack overflow") || strings.Contains(log1, "goroutine stack exceeds") {
 					crashed[name] = "fatal error: stack overflow (" + firstLine(tail(log1, 400)) + ")"
